@@ -205,6 +205,8 @@ theorem actsOf_ok {g : Graph} {prm : Params} {u : Nat} {a : Act} (hc : Consisten
         · rename_i h1
           simp only [Option.some.injEq] at hea; subst hea
           have hout := hc.2 u e he
+          rw [Bool.and_eq_true] at h1
+          have h1 := h1.1
           simp only [Bool.or_eq_true, beq_iff_eq] at h1
           rcases h1 with h1 | h1
           · exact symOwner_of_symbol ((ht e.peer _ hout).1 h1).1
@@ -542,7 +544,9 @@ theorem kind_stmt_not {u : Nat} (hk : g.kindOf u = K_STMT) :
   rw [hk]; exact ⟨by decide, by decide⟩
 
 theorem act_stateUp {u : Nat} {e : Edge} (hk : g.kindOf u = K_STATE) (he : e ∈ g.inE u)
-    (het : e.etype = E_SYMSTATE ∨ e.etype = E_INCL) : Act.tagSym e.peer ∈ actsOf g prm u := by
+    (het : e.etype = E_SYMSTATE ∨ e.etype = E_INCL)
+    (hs : prm.stateUpSymOnly = true → g.kindOf e.peer = K_SYMBOL) :
+    Act.tagSym e.peer ∈ actsOf g prm u := by
   unfold actsOf
   rw [if_neg (by simp [kind_state_not_symbol hk]), if_pos (by simp [hk])]
   unfold actsState
@@ -552,7 +556,11 @@ theorem act_stateUp {u : Nat} {e : Edge} (hk : g.kindOf u = K_STATE) (he : e ∈
   refine ⟨e, he, ?_⟩
   have h3 : (e.etype == E_SYMSTATE || e.etype == E_INCL) = true := by
     rcases het with h | h <;> simp [h]
-  simp [h3]
+  have h4 : (!prm.stateUpSymOnly || g.kindOf e.peer == K_SYMBOL) = true := by
+    cases hso : prm.stateUpSymOnly
+    · simp
+    · simp [hs hso]
+  simp [h3, h4]
 
 theorem act_stateDown {u : Nat} {e : Edge} (hk : g.kindOf u = K_STATE) (he : e ∈ g.outE u)
     (hp : g.kindOf e.peer = K_STATE) (het : e.etype = E_INCL ∨ e.etype = E_IINCL) :
@@ -599,7 +607,7 @@ theorem conseq_tagged {s1 : PState} {x : Nat} {l : Loc} (hl : Conseq g prm x l) 
   cases hl with
   | symState hk he het => exact Or.inr ⟨rfl, post_tagSt (act_symState hk he het)⟩
   | symFlow hk he het hpk => exact Or.inl ⟨rfl, post_tagSym (act_flow hk he het hpk)⟩
-  | stateUp hk he het => exact Or.inl ⟨rfl, post_tagSym (act_stateUp hk he het)⟩
+  | stateUp hk he het hs => exact Or.inl ⟨rfl, post_tagSym (act_stateUp hk he het hs)⟩
   | stateDown hk he hpk het => exact Or.inr ⟨rfl, post_tagSt (act_stateDown hk he hpk het)⟩
   | stmtDef hk hp he het => exact Or.inl ⟨rfl, (post_tagSymP (act_defn hk hp he het)).1⟩
   | recv hk hp hn he het hpos hpk =>
@@ -656,7 +664,7 @@ theorem closure_new (hc : Consistent g) (ht : EdgeTyped g) {s1 t : PState} {L C 
     · exact Or.inr ⟨h1, by rw [nodeTag_symbol hpk]; exact List.contains_iff_mem.2 hpost⟩
   | stateUp hk he het hpk hu =>
     rename_i e
-    have hpost : g.nid e.peer ∈ t.symT := by rw [ht_eq]; exact post_tagSym (act_stateUp hk he het)
+    have hpost : g.nid e.peer ∈ t.symT := by rw [ht_eq]; exact post_tagSym (act_stateUp hk he het (fun _ => hpk))
     rcases hinv.p3 _ hpk hu hpost with h1 | h1
     · exact Or.inl h1
     · exact Or.inr ⟨h1, by rw [nodeTag_symbol hpk]; exact List.contains_iff_mem.2 hpost⟩
